@@ -76,6 +76,10 @@ pub fn collect(tier: &str, caps: &Caps, rep: &Report) -> Vec<BItem> {
         items.lock().unwrap().push(BItem { space: "raise".into(), choices: ch.to_vec(), tags: vec![format!("n={}", n), format!("named={}", named), format!("raising={:?}", raising)], inputs: vec![item], module, nontrivial: true });
     });
     rep.add_stats("raise", "full", &st);
+    for (i, (module, inputs, tags)) in crate::sem_diff::raise_parent_modules().into_iter().enumerate() {
+        items.lock().unwrap().push(BItem { space: "raise-parent".into(), choices: vec![i as u32], tags, inputs, module, nontrivial: true });
+    }
+    rep.add_stats("raise-parent", "full (4 fixed layouts)", &crate::explore::ExploreStats { leaves: 4, transitions: 4, ..Default::default() });
     items.into_inner().unwrap()
 }
 
@@ -117,6 +121,9 @@ pub fn replay(f: &Failure) -> i32 {
                             item = Some(BItem { space: "enum".into(), choices: full, tags: c.tags.clone(), inputs: vec![f.input.clone()], module: enum_module(&c), nontrivial: true });
                         }
                     }
+                }
+                "raise-parent" => {
+                    item = crate::sem_diff::raise_parent_modules().into_iter().enumerate().find(|(i, _)| vec![*i as u32] == f.choices).map(|(_, (module, inputs, tags))| BItem { space: f.space.clone(), choices: f.choices.clone(), tags, inputs, module, nontrivial: true });
                 }
                 "flat" | "flat-pos" => {
                     let (mut o, _) = flat_opts(t);
